@@ -7,8 +7,10 @@ mod c03;
 mod c04;
 mod c05;
 mod c06;
+mod c07;
 mod c08;
 mod c08q;
+mod c09;
 mod c10;
 mod c11;
 mod c12;
@@ -36,8 +38,10 @@ fn main() {
         "C04" => c04::run(seed, std::env::args().nth(3).as_deref() == Some("thorough")),
         "C05" => c05::run(seed, std::env::args().nth(3).as_deref() == Some("thorough")),
         "C06" => c06::run(seed, std::env::args().nth(3).as_deref() == Some("thorough")),
+        "C07" => c07::run(seed, std::env::args().nth(3).as_deref() == Some("thorough")),
         "C08" => c08::run(seed),
         "C08Q" => c08q::run(seed, std::env::args().nth(3).as_deref() == Some("thorough")),
+        "C09" => c09::run(seed, std::env::args().nth(3).as_deref() == Some("thorough")),
         "C10" => c10::run(seed, std::env::args().nth(3).as_deref() == Some("thorough")),
         "C11" => c11::run(seed, std::env::args().nth(3).as_deref() == Some("thorough")),
         "C12" => c12::run(seed, std::env::args().nth(3).as_deref() == Some("thorough")),
